@@ -2996,7 +2996,110 @@ fn parse_case(lines: &[String]) -> Vec<Op> {
     lines.iter().filter(|l| !l.trim().is_empty() && !l.starts_with('#')).filter_map(|l| Op::parse(l)).collect()
 }
 
+/// The map laws for resource *types* a program rarely uses (the histories above use four ordinary ones):
+/// a `Box<dyn Resource>`, a `Box` / `Option` / tuple / `Arc` / `Vec` of a payload, a `World`. Safe API only:
+/// insert / insert_by_id / entry, `has_value`, the type of what `get_mut_raw` hands out, `remove` /
+/// `remove_by_id` giving back the very value (its tag, dropped exactly once, by the caller).
+fn unusual_types_check() -> (u64, Vec<String>) {
+    use std::sync::atomic::{AtomicUsize, Ordering::SeqCst};
+    use std::sync::Arc;
+    struct Payload {
+        tag: u64,
+        drops: Arc<AtomicUsize>,
+    }
+    impl Drop for Payload {
+        fn drop(&mut self) {
+            self.drops.fetch_add(1, SeqCst);
+        }
+    }
+    let mut bad = vec![];
+    let mut n = 0u64;
+    fn one<R: Resource>(name: &str, make: &dyn Fn(u64, &std::sync::Arc<std::sync::atomic::AtomicUsize>) -> R, tag_of: &dyn Fn(&R) -> Option<u64>, bad: &mut Vec<String>) {
+        use std::sync::atomic::{AtomicUsize, Ordering::SeqCst};
+        use std::sync::Arc;
+        for way in 0..3 {
+            let drops = Arc::new(AtomicUsize::new(0));
+            let r = catch(|| {
+                let mut w = World::empty();
+                let id = if way == 1 { ResourceId::new_with_dynamic_id::<R>(3) } else { ResourceId::new::<R>() };
+                match way {
+                    0 => {
+                        w.insert::<R>(make(7, &drops));
+                    }
+                    1 => w.insert_by_id::<R>(id.clone(), make(7, &drops)),
+                    _ => drop(w.entry::<R>().or_insert_with(|| make(7, &drops))),
+                }
+                let mut v = vec![];
+                if !w.has_value_raw(id.clone()) {
+                    v.push("has_value_raw says the slot is vacant".to_string());
+                }
+                match w.get_mut_raw(id.clone()) {
+                    None => v.push("get_mut_raw finds nothing".into()),
+                    Some(x) => {
+                        if !x.is::<R>() {
+                            v.push("what get_mut_raw hands out is not of the type the id names".into());
+                        }
+                    }
+                }
+                let back = catch(AssertUnwindSafe(|| w.remove_by_id::<R>(id.clone())));
+                match back {
+                    Err(e) => v.push(format!("remove_by_id with the matching type argument panicked: {}", e)),
+                    Ok(None) => v.push("remove_by_id returned None for an occupied slot".into()),
+                    Ok(Some(x)) => {
+                        if tag_of(&x) != Some(7) {
+                            v.push(format!("remove_by_id returned a value that reads {:?}, 7 was stored", tag_of(&x)));
+                        }
+                        if drops.load(SeqCst) != 0 {
+                            v.push("the stored value was dropped although remove handed it to the caller".into());
+                        }
+                        drop(x);
+                    }
+                }
+                if w.has_value_raw(id) {
+                    v.push("the slot is still occupied after remove_by_id".into());
+                }
+                drop(w);
+                v
+            });
+            match r {
+                Err(e) => bad.push(format!("resource type {} ({}): a panic came out: {}", name, ["insert", "insert_by_id under dynamic id 3", "entry().or_insert_with"][way], e)),
+                Ok(v) => {
+                    for x in v {
+                        bad.push(format!("resource type {} ({}): {}", name, ["insert", "insert_by_id under dynamic id 3", "entry().or_insert_with"][way], x));
+                    }
+                    if drops.load(SeqCst) != 1 && bad.is_empty() {
+                        bad.push(format!("resource type {}: the payload was dropped {} times, once expected", name, drops.load(SeqCst)));
+                    }
+                }
+            }
+        }
+    }
+    let mk = |t: u64, d: &Arc<AtomicUsize>| Payload { tag: t, drops: d.clone() };
+    n += 1;
+    one::<Payload>("Payload", &|t, d| mk(t, d), &|p| Some(p.tag), &mut bad);
+    n += 1;
+    one::<Box<dyn Resource>>("Box<dyn Resource>", &|t, d| Box::new(mk(t, d)), &|b| b.downcast_ref::<Payload>().map(|p| p.tag), &mut bad);
+    n += 1;
+    one::<Box<Payload>>("Box<Payload>", &|t, d| Box::new(mk(t, d)), &|b| Some(b.tag), &mut bad);
+    n += 1;
+    one::<Option<Payload>>("Option<Payload>", &|t, d| Some(mk(t, d)), &|b| b.as_ref().map(|p| p.tag), &mut bad);
+    n += 1;
+    one::<(Payload, u8)>("(Payload, u8)", &|t, d| (mk(t, d), 1), &|b| Some(b.0.tag), &mut bad);
+    n += 1;
+    one::<Arc<Payload>>("Arc<Payload>", &|t, d| Arc::new(mk(t, d)), &|b| Some(b.tag), &mut bad);
+    n += 1;
+    one::<Vec<Box<dyn Resource>>>("Vec<Box<dyn Resource>>", &|t, d| vec![Box::new(mk(t, d)) as Box<dyn Resource>], &|b| b.first().and_then(|x| x.downcast_ref::<Payload>()).map(|p| p.tag), &mut bad);
+    (n, bad)
+}
+
 pub fn run(args: &Args, rep: &mut Report) {
+    if args.get("replay").is_none() {
+        let (n, bad) = unusual_types_check();
+        rep.add("unusual_resource_types_round_tripped", n);
+        if let Some(b) = bad.first() {
+            rep.violate("C09", "impl", "", format!("{} [unusual-types]", b), vec!["# unusual-types: self-contained sequences, see harness/src/engines/world.rs unusual_types_check".into()]);
+        }
+    }
     let seed = args.num("seed", 1);
     let cases = args.num("cases", 300);
     let max_ops = args.num("max-ops", 40);
